@@ -113,7 +113,7 @@ def job(cfg, cfgs, tier):
 
 def main(tier):
     run = check.Run(PID, tier)
-    check.JOB_BUDGET[0] = 300 if tier == "quick" else 3000
+    check.JOB_BUDGET[0] = 300 if tier == "quick" else 1500
     cfgs = configs(tier)
     check.run_jobs([(_compile, (cfgs, tier))])
     run.extend(check.run_jobs([(job, (c, cfgs, tier)) for c in cfgs], timeout=1200))
